@@ -144,7 +144,7 @@ HNext(e) ==
      IF e.op \in {"deliver", "dup", "park"} /\ e.found /\ e.k = "resp" /\ e.t = n /\ e.rq = n
      THEN [h EXCEPT !.ans = @ \cup {e.tg}]
      ELSE IF ~Has(e, "n") \/ e.n # n THEN h
-     ELSE IF e.op = "init" THEN [h EXCEPT !.del = FALSE, !.ddel = FALSE]
+     ELSE IF e.op \in {"init", "retrieve"} THEN [h EXCEPT !.del = FALSE, !.ddel = FALSE]   \* a new download may register the file again
      ELSE IF e.op = "delfile" /\ Has(e, "blocked") THEN [h EXCEPT !.prog = IF ns[n].pst THEN "delfile" ELSE "-"]
      ELSE IF e.op = "deldisc" /\ Has(e, "blocked") THEN [h EXCEPT !.prog = "deldisc"]
      ELSE IF e.op = "delfile" /\ e.code = 200 THEN [h EXCEPT !.del = ~WasRunning(n), !.ddel = ~WasRunning(n)]
